@@ -490,6 +490,13 @@ pub fn controller_constants() -> Vec<(i64, i64)> {
         REGISTERED_PARAMETER_NUMBER_LSB, REGISTERED_PARAMETER_NUMBER_MSB,
         ALL_SOUND_OFF, RESET_ALL_CONTROLLERS, LOCAL_CONTROL_ON_OFF, ALL_NOTES_OFF, OMNI_MODE_OFF, OMNI_MODE_ON,
         MONO_MODE_ON, POLY_MODE_ON,
+        // every remaining constant of the module
+        DAMPER_PEDAL_ON_OFF, PORTAMENTO_ON_OFF, SOSTENUTO_ON_OFF, SOFT_PEDAL_ON_OFF, LEGATO_FOOTSWITCH, HOLD_2,
+        SOUND_CONTROLLER_1, SOUND_CONTROLLER_2, SOUND_CONTROLLER_3, SOUND_CONTROLLER_4, SOUND_CONTROLLER_5,
+        SOUND_CONTROLLER_6, SOUND_CONTROLLER_7, SOUND_CONTROLLER_8, SOUND_CONTROLLER_9, SOUND_CONTROLLER_10,
+        GENERAL_PURPOSE_CONTROLLER_5, GENERAL_PURPOSE_CONTROLLER_6, GENERAL_PURPOSE_CONTROLLER_7,
+        GENERAL_PURPOSE_CONTROLLER_8, PORTAMENTO_CONTROL, HIGH_RESOLUTION_VELOCITY_PREFIX, EFFECTS_1_DEPTH,
+        EFFECTS_2_DEPTH, EFFECTS_3_DEPTH, EFFECTS_4_DEPTH, EFFECTS_5_DEPTH,
     ];
     v.iter().enumerate().map(|(i, c)| (i as i64, c.get() as i64)).collect()
 }
